@@ -138,6 +138,27 @@ def run(ctx):
             found += 1
             if found >= 10:
                 break
+    # ScipyDistribution subclasses: every non-empty proper subset of (c, loc, scale) fixed
+    try:
+        dm = D.dist_module()
+
+        class MyWeibull(dm.ScipyDistribution):
+            scipy_dist_name = "weibull_min"
+        data = sts.weibull_min.rvs(1.7, loc=0.2, scale=2.5, size=300, random_state=5)
+        vals = {"c": 2.0, "loc": 0.1, "scale": 3.0}
+        for r in (1, 2):
+            for sub in itertools.combinations(vals, r):
+                kw = {"f_" + k: vals[k] for k in sub}
+                d = MyWeibull(**kw)
+                ok = all(d.parameters[k] == vals[k] for k in sub)
+                d.fit(data)
+                ok = ok and all(math.isclose(float(d.parameters[k]), vals[k], rel_tol=1e-12) for k in sub)
+                ctx.count(("scipydist", sub), True)
+                if not ok:
+                    ctx.violation({"cls": "ScipyDistribution", "clause": "fit", "fixed": "+".join(sub)},
+                                  "ScipyDistribution subclass: fixed %r not honoured: %r" % (kw, d.parameters), {"cls": "ScipyDistribution", "fixed": kw})
+    except Exception as e:  # noqa
+        ctx.violation({"cls": "ScipyDistribution", "clause": "exception", "exc": type(e).__name__}, "ScipyDistribution subclass raised %s: %s" % (type(e).__name__, e), {"cls": "ScipyDistribution"})
     ctx.notes["input_distribution"] = dist
     ctx.sample(cases[0]); ctx.sample(cases[-1])
     ctx.cov["exhaustive"] = True
